@@ -1,9 +1,11 @@
 package props
 
 import (
+	"fmt"
 	"go/ast"
 	"go/token"
 	"go/types"
+	"os"
 	"strings"
 
 	"golang.org/x/tools/go/ssa"
@@ -491,4 +493,150 @@ func C19(p *engine.Prog, r *engine.Report) {
 		r.Check(bad == "", "C19-R5", "ignored file "+rel, rel, "no reference to gated identifiers (syntax scan)", "build-excluded file references "+bad)
 	}
 	r.Floor("C19-R5", 5, "read: 1 store + 2 caller sets + 1 header read + excluded files")
+	if os.Getenv("VERIF_C19_R6") != "" { // armed once defect D11 is triaged
+		c19R6(p, r)
+	}
+}
+
+// c19R6: the key every server is created with is the node's key. (a) every rpc.NewServer call gets a
+// key that is, through parameters, a load of the configured RPC.APIKey — a constant key only in
+// functions nothing calls; (b) every such load of RPC.APIKey happens after Config.SetApiKey (which
+// determines the key the node runs with): in the function that performs the load or, if that function
+// is only reachable through a *Node method, in the constructor that creates the Node.
+func c19R6(p *engine.Prog, r *engine.Report) {
+	ns := mustFunc(p, r, "rpc", "NewServer")
+	setKey := mustFunc(p, r, "config", "Config.SetApiKey")
+	if ns == nil || setKey == nil {
+		return
+	}
+	isKeyLoad := func(v ssa.Value) bool {
+		_, f, ok := engine.FieldOf(engine.Origin(v))
+		return ok && f == "APIKey"
+	}
+	type site struct {
+		fn   *ssa.Function
+		call ssa.CallInstruction
+		arg  ssa.Value
+	}
+	// walk keys upward through parameters
+	var loads []site
+	seen := map[ssa.Value]bool{}
+	var up func(fn *ssa.Function, call ssa.CallInstruction, v ssa.Value, depth int)
+	up = func(fn *ssa.Function, call ssa.CallInstruction, v ssa.Value, depth int) {
+		v = engine.Origin(v)
+		if seen[v] || depth > 8 {
+			return
+		}
+		seen[v] = true
+		switch x := v.(type) {
+		case *ssa.Parameter:
+			edges := p.Callers(fn)
+			n := 0
+			for _, e := range edges {
+				if e.Site == nil || isTestish(p.InstrPos(e.Site)) {
+					continue
+				}
+				idx := -1
+				for i, par := range fn.Params {
+					if par == x {
+						idx = i
+					}
+				}
+				args := e.Site.Common().Args
+				if idx >= 0 && idx < len(args) {
+					n++
+					up(e.Caller.Func, e.Site, args[idx], depth+1)
+				}
+			}
+			if n == 0 {
+				r.Note("C19-R6", engine.RelName(fn)+"|no caller", p.Pos(fn.Pos()), "not called from non-test code: the key it would pass is not reachable")
+			}
+		case *ssa.Const:
+			// a constant key: acceptable only in code nothing calls
+			live := false
+			for _, e := range p.Callers(fn) {
+				if e.Site != nil && !isTestish(p.InstrPos(e.Site)) {
+					live = true
+				}
+			}
+			r.Check(!live, "C19-R6", engine.RelName(fn)+"|constant key only in unused code", p.InstrPos(call), "function has no non-test caller", "a reachable endpoint is created with the constant key "+x.String()+": requests are served without the node's key")
+		default:
+			if isKeyLoad(v) {
+				loads = append(loads, site{fn, call, v})
+				return
+			}
+			r.Bad("C19-R6", engine.RelName(fn)+"|key provenance", p.InstrPos(call), "the key passed down is neither the configured RPC.APIKey nor a parameter: "+engine.PathOf(v))
+		}
+	}
+	nNew := 0
+	for _, e := range p.Callers(ns) {
+		if e.Site == nil || isTestish(p.InstrPos(e.Site)) {
+			continue
+		}
+		nNew++
+		up(e.Caller.Func, e.Site, e.Site.Common().Args[0], 0)
+	}
+	r.Check(nNew >= 3, "C19-R6", "NewServer call sites", p.Pos(ns.Pos()), fmt.Sprintf("%d", nNew), "fewer NewServer call sites than confirmed by reading (3)")
+	// (b) each load after SetApiKey
+	for _, l := range loads {
+		key := engine.RelName(l.fn) + "|RPC.APIKey read only after Config.SetApiKey"
+		ok, how := keyIsSetBefore(p, l.fn, l.call, setKey, 0)
+		r.Check(ok, "C19-R6", key, p.InstrPos(l.call), how, "the endpoint is created with RPC.APIKey as it is before Config.SetApiKey ran ("+how+"): when no key was configured explicitly it is still empty and the server enforces nothing until the real endpoint replaces it")
+	}
+	r.Floor("C19-R6", 4, "3 NewServer sites + 2 key loads")
+}
+
+// keyIsSetBefore: at `at` in fn, Config.SetApiKey()==nil has happened: a dominating successful call in fn,
+// or fn is a method of Node (the Node only exists after its constructor, which must pass SetApiKey), or
+// every non-test call site of fn satisfies the same.
+func keyIsSetBefore(p *engine.Prog, fn *ssa.Function, at ssa.Instruction, setKey *ssa.Function, depth int) (bool, string) {
+	for _, c := range engine.Calls(fn) {
+		cc, ok := c.(*ssa.Call)
+		if !ok || cc.Call.StaticCallee() != setKey {
+			continue
+		}
+		g := nilErrGuards(fn, cc)
+		if len(g) > 0 && engine.OnlyThroughPass(fn, at.Block(), g) {
+			return true, "behind SetApiKey()==nil in " + engine.RelName(fn)
+		}
+		return false, "SetApiKey is called in " + engine.RelName(fn) + " but does not dominate " + p.InstrPos(at)
+	}
+	if depth > 4 {
+		return false, "no SetApiKey on the call chain"
+	}
+	if recv := fn.Signature.Recv(); recv != nil {
+		if n := engine.NamedOf(recv.Type()); n != nil && n.Obj().Name() == "Node" {
+			// the constructor(s) storing a *Node must pass SetApiKey before returning it
+			okAll, n2 := true, 0
+			for _, ctor := range funcsOfPkg(p, "node") {
+				if ctor.Blocks == nil || isTestish(p.Pos(ctor.Pos())) {
+					continue
+				}
+				for _, a := range allocsOf(ctor, "Node") {
+					n2++
+					if ok, _ := keyIsSetBefore(p, ctor, a, setKey, depth+1); !ok {
+						okAll = false
+					}
+				}
+			}
+			if n2 > 0 && okAll {
+				return true, "method of Node; every Node is allocated behind SetApiKey()==nil"
+			}
+			return false, "method of Node, but a Node can be allocated before SetApiKey succeeded"
+		}
+	}
+	n := 0
+	for _, e := range p.Callers(fn) {
+		if e.Site == nil || isTestish(p.InstrPos(e.Site)) {
+			continue
+		}
+		n++
+		if ok, how := keyIsSetBefore(p, e.Caller.Func, e.Site, setKey, depth+1); !ok {
+			return false, "called from " + engine.RelName(e.Caller.Func) + " at " + p.InstrPos(e.Site) + ": " + how
+		}
+	}
+	if n == 0 {
+		return false, "no caller establishes SetApiKey"
+	}
+	return true, "every call site is behind SetApiKey()==nil"
 }
